@@ -532,6 +532,9 @@ def main():
     (VERIF / "replays").mkdir(exist_ok=True)
     n_viol = 0
     if violations:
+        # the replay is the strongest witness available: a case on which the property oracle itself fails on the implementation's
+        # output, before one that merely differs from the model on a property-relevant stream
+        violations.sort(key=lambda v: 0 if v.get("oracle_failed") else 1)
         d = shrink_diff(mod, violations[0], have_driver)
         path = write_replay(pid, "impl-violates", d, seed, lean)
         print(f"VIOLATION property={pid} replay={path}")
